@@ -14,7 +14,7 @@ def run(tier, seed):
     kb = 1 + (seed % 1000) * 10
     n = 350 if q else 2500
     for k in range(12 if q else 32):
-        jobs.append(Job("c01", "optim", "spqlios-fma", {"mode": "rc", "keys": 2 if q else 4, "keybase": kb + 2 * (k % 2)},
+        jobs.append(Job("c01", "optim", "spqlios-fma", {"mode": "rc", "keys": 2 if q else 4, "keybase": kb + 2 * (k % 2), "first_lambda": 80 if k % 2 else 128},
                         rc_params=core.rc_params(core.splitmix(seed, k), n), label="rc optim fma %d" % k))
     for lam in (128, 80):
         jobs.append(Job("c01", "optim", "spqlios-fma", {"mode": "table", "lambda": lam, "keys": 1, "keybase": kb, "seed": seed, "reps": 1 if q else 8}, label="table optim fma %d" % lam))
